@@ -14,7 +14,8 @@ import seed_check            # noqa: E402
 
 
 def main():
-    dirs = sorted(d for d in glob.glob(os.path.join(HERE, 'seeded', '*')) if os.path.isdir(d))
+    filt = sys.argv[1:]     # optional name filters (e.g. -m13 -m14): only those rows are recomputed and printed
+    dirs = sorted(d for d in glob.glob(os.path.join(HERE, 'seeded', '*')) if os.path.isdir(d) and (not filt or any(d.endswith(f) for f in filt)))
     with ProcessPoolExecutor(max_workers=16) as ex:
         results = list(ex.map(seed_check.run_one, [(d, False) for d in dirs]))
     print('| change | what it breaks (author\'s words, shortened) | reported by (first failing obligation per check) | first try |')
